@@ -146,7 +146,7 @@ func runJwksScenario(sc jwksScenario) ([]map[string]any, error) {
 	ctx, cancel := context.WithCancel(context.Background())
 	defer cancel()
 	provider := oidc.NewJWKSProvider(cfg, internal.NewTLSConfigPool(ctx))
-	go func() { _ = provider.ServeContext(ctx) }()
+	startUnit(ctx, provider)
 
 	reg := map[string]bool{}
 	for _, st := range sc.Steps {
@@ -269,4 +269,15 @@ func runJwksFile(in, out string) (int, error) {
 		}
 	}
 	return len(scs), nil
+}
+
+
+// startUnit brings a unit of the service up the way run.Group does: its PreRun step if it has one, then its serving loop.
+func startUnit(ctx context.Context, u any) {
+	if pr, ok := u.(interface{ PreRun() error }); ok {
+		_ = pr.PreRun()
+	}
+	if sv, ok := u.(interface{ ServeContext(context.Context) error }); ok {
+		go func() { _ = sv.ServeContext(ctx) }()
+	}
 }
